@@ -10,6 +10,8 @@ S5  constant-filled vectors returned by an expression arm are never sized by a T
 S4  cross-reference: rows of a join are truncated to their own element width (C13-J6), else the value is wider than its type
 S3  the circuit is built from the wires of the function body: outputs = panic record ++ wires returned by the body (C02-P5 for the
     record), and the input parties handed to the builder are the ones collected in S1
+S9  array reads take the element stride from the array's own type, not from the type the result is used with
+S10 either check_or_constrain_* never re-types identifiers / elements / fields, or the lowering adjusts every number to its type's width
 S8  cross-reference: array outputs are decoded with the element count of the type (C09-L7)
 """
 from .. import mir
@@ -368,5 +370,84 @@ def rule_s8(ctx):
     return res
 
 
+def rule_s9(ctx):
+    """An array is read with the element width of the array's own type (not with the width of the type the result is used with)."""
+    from . import C02
+    res = RuleResult("S9", "array reads take the element stride from the array's type")
+    f = C02.fn_of(ctx, C02.EXPR_COMPILE)
+    body = ctx.body(f["id"])
+    succ = body.pruned_succ({C02.INNER: "ArrayAccess"})
+    region = body.reachable([0], succ=succ)
+    strides = []
+    for b in sorted(region):
+        for st in body.blocks[b]["stmts"]:
+            if st["k"] == "assign" and st["rv"]["k"] == "binop" and st["rv"]["op"].startswith("Add"):
+                # `i + elem_bits` used as an index
+                for me, other in ((st["rv"]["l"], st["rv"]["r"]), (st["rv"]["r"], st["rv"]["l"])):
+                    if other["k"] not in ("copy", "move"):
+                        continue
+                    tr = body.trace_operand(other)
+                    kinds = set()
+                    for (r, p) in tr:
+                        if r[0] == "call" and mir.last_seg(r[2] or "") == "size_in_bits_for_defs":
+                            recv = body.trace_operand(body.term(r[1])["args"][0])
+                            kinds.add("result type" if any(rr == SELF1 and tuple(pp) == ("ty",) for (rr, pp) in recv) else "other type")
+                        elif r[0] == "call" and mir.last_seg(r[2] or "") in ("expect", "unwrap", "unwrap_array_size") and p[-1:] == ("0",):
+                            kinds.add("array type")
+                    if kinds:
+                        strides.append((kinds, st["sp"]))
+    if not strides:
+        raise AnchorMissing("S9: cannot find the element stride of the array read (i + stride)")
+    for kinds, sp in strides:
+        if kinds == {"array type"}:
+            res.ok({"site": "line %d" % sp[1], "verdict": "stride = element width of the array's own type"})
+        else:
+            res.bad(Finding("S9", f["id"], "array read uses the width of the result type as stride",
+                            "the elements are stored with the width of the array's element type; where an untyped number was bound (`let a = [5, 7]`) and the element is then used as a u16, "
+                            "the result type is narrower than the stored elements and the read returns bits of the wrong element", sp))
+    return res
+
+
+def rule_s10(ctx):
+    """If the checker may re-type an expression whose wires come from elsewhere, the compiler has to adjust their number."""
+    from . import C02
+    res = RuleResult("S10", "either the checker never re-types a variable / element / field, or the lowering adjusts every number to the width of its type")
+    # (a) does check_or_constrain_* look at the kind of expression before it overwrites its type?
+    guarded = True
+    for fid in ("check::check_or_constrain_unsigned", "check::check_or_constrain_signed"):
+        body = ctx.body(fid)
+        writes = [b for b, blk in enumerate(body.blocks) for st in blk["stmts"]
+                  if st["k"] == "assign" and any(e["k"] == "field" and e.get("name") == "ty" for e in st["place"]["p"]) and st["place"]["l"] == 1]
+        kind_tests = set()
+        for b in range(body.n):
+            info = body.switch_info(b)
+            if info and info[0] and info[0][0] == SELF1 and tuple(info[0][1]) == ("inner",) and info[2] == "ast::ExprEnum":
+                # a test that separates Identifier / accesses from literals: Identifier must be one of its explicit targets
+                if "Identifier" in {info[1].get(v) for v, _ in body.term(b)["targets"]}:
+                    kind_tests.add(b)
+        if not writes or not all(any(body.dominates(k, w) for k in kind_tests) for w in writes):
+            guarded = False
+    # (b) does the entry point of the expression lowering adjust the number of wires to size_in_bits(self.ty)?
+    adjusts = False
+    body_fn = C02.fn_of(ctx, C02.EXPR_COMPILE)
+    entry = ctx.wrappers.get(body_fn["id"])
+    if entry:
+        eb = ctx.body(entry)
+        sizes = [b for b, t in eb.calls() if mir.last_seg(mir.callee(t) or "") == "size_in_bits_for_defs" and any(r == SELF1 and tuple(p) == ("ty",) for (r, p) in eb.trace_operand(t["args"][0]))]
+        lens = [b for b, t in eb.calls() if mir.last_seg(mir.callee(t) or "") == "len"]
+        rets = [b for b in range(eb.n) if eb.term(b) and eb.term(b)["k"] == "return"]
+        if sizes and lens:
+            num = eb.pruned_succ({(SELF1, ("ty",)): "Unsigned"})
+            w = eb.path(0, rets, blocked=set(sizes), succ=lambda x: [y for y in num(x) if not eb.blocks[y]["cleanup"]])
+            adjusts = not w
+    if guarded or adjusts:
+        res.ok({"verdict": "checker re-types only literals: %s; lowering adjusts every number to the width of its type: %s" % (guarded, adjusts)})
+    else:
+        res.bad(Finding("S10", body_fn["id"], "a re-typed variable keeps the wires of its binding",
+                        "check_or_constrain_* overwrites the type of any expression of an unspecified number type - also of identifiers, elements and fields whose wires were produced (with 32 bits) "
+                        "where they were bound - and the lowering returns those wires as they are: the value has 32 wires under a type of 8, 16 or 64 bits", body_fn["sp"]))
+    return res
+
+
 def run(ctx):
-    return ctx.run_rules([rule_s1, rule_s2, rule_s3, rule_s4, rule_s5, rule_s6, rule_s7, rule_s8])
+    return ctx.run_rules([rule_s1, rule_s2, rule_s3, rule_s4, rule_s5, rule_s6, rule_s7, rule_s8, rule_s9, rule_s10])
